@@ -404,4 +404,236 @@ theorem removeVar_tags (A a : List Nat) (v : Nat) (st : TState) (ha : Valid A a)
         · exact Or.inl (Or.inl h)
         · exact Or.inr h
 
+/-! ### writing tags into an action -/
+
+/-- no agent is tagged with two different actions -/
+def Functional (tags : List (Nat × Nat)) : Prop := ∀ u k k', (u, k) ∈ tags → (u, k') ∈ tags → k = k'
+
+theorem length_applyTags : ∀ (tags : List (Nat × Nat)) (a : List Nat), (applyTags tags a).length = a.length
+  | [], _ => rfl
+  | t :: ts, a => by
+    simp only [applyTags, List.foldl_cons]
+    have := length_applyTags ts (setAt a t.1 t.2)
+    simp only [applyTags] at this
+    rw [this, length_setAt]
+
+theorem applyTags_untagged : ∀ (tags : List (Nat × Nat)) (a : List Nat) (u : Nat),
+    (∀ t ∈ tags, t.1 < a.length) → (∀ k, (u, k) ∉ tags) → (applyTags tags a).getD u 0 = a.getD u 0
+  | [], _, _, _, _ => rfl
+  | t :: ts, a, u, hl, hno => by
+    simp only [applyTags, List.foldl_cons]
+    have hne : u ≠ t.1 := by
+      intro e; exact hno t.2 (by rw [e]; exact List.mem_cons_self ..)
+    have := applyTags_untagged ts (setAt a t.1 t.2) u
+      (fun t' ht' => by rw [length_setAt]; exact hl t' (List.mem_cons_of_mem _ ht'))
+      (fun k hk => hno k (List.mem_cons_of_mem _ hk))
+    simp only [applyTags] at this
+    rw [this, getD_setAt a t.1 t.2 u (hl t (List.mem_cons_self ..))]
+    simp [hne]
+
+theorem applyTags_tagged : ∀ (tags : List (Nat × Nat)) (a : List Nat) (u k : Nat),
+    (∀ t ∈ tags, t.1 < a.length) → Functional tags → (u, k) ∈ tags → (applyTags tags a).getD u 0 = k
+  | [], _, _, _, _, _, h => by simp at h
+  | t :: ts, a, u, k, hl, hf, hmem => by
+    simp only [applyTags, List.foldl_cons]
+    have hl' : ∀ t' ∈ ts, t'.1 < (setAt a t.1 t.2).length := fun t' ht' => by
+      rw [length_setAt]; exact hl t' (List.mem_cons_of_mem _ ht')
+    have hf' : Functional ts := fun u k k' h1 h2 => hf u k k' (List.mem_cons_of_mem _ h1) (List.mem_cons_of_mem _ h2)
+    by_cases hex : ∃ k', (u, k') ∈ ts
+    · obtain ⟨k', hk'⟩ := hex
+      have e : k' = k := hf u k' k (List.mem_cons_of_mem _ hk') hmem
+      have := applyTags_tagged ts (setAt a t.1 t.2) u k' hl' hf' hk'
+      simp only [applyTags] at this
+      rw [this, e]
+    · have hno : ∀ k', (u, k') ∉ ts := fun k' hk' => hex ⟨k', hk'⟩
+      have ht : t = (u, k) := by
+        rcases List.mem_cons.mp hmem with h | h
+        · exact h.symm
+        · exact absurd h (hno k)
+      have := applyTags_untagged ts (setAt a t.1 t.2) u hl' hno
+      simp only [applyTags] at this
+      rw [this, getD_setAt a t.1 t.2 u (hl t (List.mem_cons_self ..)), ht]
+      simp
+
+theorem payoffL_congr (rules : List Rule) (l1 l2 : List Nat) (h : ∀ u, l1.getD u 0 = l2.getD u 0) :
+    payoffL rules l1 = payoffL rules l2 := by
+  have : asgOf l1 = asgOf l2 := by funext u; exact h u
+  simp only [payoffL, this]
+
+/-! ### the invariant carried through the elimination loop -/
+
+/-- for every in-range joint action `a`: writing the tags reachable from `a` into `a` gives a joint action whose TRUE
+    payoff is the value read from the state at `a`; tags are functional, in range, and name eliminated agents only -/
+def TagInv (A : List Nat) (rules : List Rule) (active : List Nat) (st : TState) : Prop :=
+  ∀ a, Valid A a →
+    payoffL rules (applyTags (selTags A a st) a) = stVal A a st ∧
+    Functional (selTags A a st) ∧
+    ∀ t ∈ selTags A a st, t.1 < A.length ∧ t.1 ∉ active ∧ t.2 < A.getD t.1 0
+
+theorem removeVar_TagInv (A : List Nat) (rules : List Rule) (active : List Nat) (v : Nat) (st : TState)
+    (hvact : v ∈ active) (hv : v < A.length) (hpos : 0 < A.getD v 0) (hk : GKeys A.length st.graph)
+    (hP : TagInv A rules active st) : TagInv A rules (active.filter (· != v)) (removeVar A A.length v st) := by
+  intro a ha
+  obtain ⟨k, hklt, hval, hmem⟩ := removeVar_tags A a v st ha hv hpos hk
+  have ha' : Valid A (setAt a v k) := valid_setAt A a v k ha hklt hv
+  obtain ⟨p1, p2, p3⟩ := hP (setAt a v k) ha'
+  have hal : a.length = A.length := valid_len A a ha
+  have hnov : ∀ k', (v, k') ∉ selTags A (setAt a v k) st := fun k' h => (p3 _ h).2.1 hvact
+  have q3 : ∀ t ∈ selTags A a (removeVar A A.length v st), t.1 < A.length ∧ t.1 ∉ active.filter (· != v) ∧ t.2 < A.getD t.1 0 := by
+    intro t ht
+    rcases (hmem t).mp ht with rfl | h
+    · exact ⟨hv, by simp, hklt⟩
+    · obtain ⟨a1, a2, a3⟩ := p3 t h
+      exact ⟨a1, fun hc => a2 (List.mem_filter.mp hc).1, a3⟩
+  have q2 : Functional (selTags A a (removeVar A A.length v st)) := by
+    intro u k1 k2 h1 h2
+    rcases (hmem _).mp h1 with e1 | h1 <;> rcases (hmem _).mp h2 with e2 | h2
+    · injection e1 with _ e1; injection e2 with _ e2; rw [e1, e2]
+    · injection e1 with e1 _; subst e1; exact absurd h2 (hnov k2)
+    · injection e2 with e2 _; subst e2; exact absurd h1 (hnov k1)
+    · exact p2 u k1 k2 h1 h2
+  refine ⟨?_, q2, q3⟩
+  rw [← hval, ← p1]
+  apply payoffL_congr
+  intro u
+  have hl1 : ∀ t ∈ selTags A a (removeVar A A.length v st), t.1 < a.length := fun t ht => by rw [hal]; exact (q3 t ht).1
+  have hl2 : ∀ t ∈ selTags A (setAt a v k) st, t.1 < (setAt a v k).length := fun t ht => by
+    rw [length_setAt, hal]; exact (p3 t ht).1
+  by_cases hex : ∃ k1, (u, k1) ∈ selTags A (setAt a v k) st
+  · obtain ⟨k1, hk1⟩ := hex
+    rw [applyTags_tagged _ _ u k1 hl1 q2 ((hmem _).mpr (Or.inr hk1)), applyTags_tagged _ _ u k1 hl2 p2 hk1]
+  · have hno : ∀ k1, (u, k1) ∉ selTags A (setAt a v k) st := fun k1 h => hex ⟨k1, h⟩
+    rw [applyTags_untagged _ _ u hl2 hno, getD_setAt a v k u (by rw [hal]; exact hv)]
+    by_cases e : u = v
+    · subst e
+      rw [applyTags_tagged _ _ u k hl1 q2 ((hmem _).mpr (Or.inl rfl))]; simp
+    · have hno' : ∀ k1, (u, k1) ∉ selTags A a (removeVar A A.length v st) := by
+        intro k1 h
+        rcases (hmem _).mp h with e1 | h
+        · injection e1 with e1 _; exact e e1
+        · exact hno k1 h
+      rw [applyTags_untagged _ _ u hl1 hno']; simp [e]
+
+theorem TagInv_mono (A : List Nat) (rules : List Rule) (act1 act2 : List Nat) (st : TState)
+    (hsub : ∀ u ∈ act2, u ∈ act1) (hP : TagInv A rules act1 st) : TagInv A rules act2 st := by
+  intro a ha
+  obtain ⟨p1, p2, p3⟩ := hP a ha
+  exact ⟨p1, p2, fun t ht => ⟨(p3 t ht).1, fun hc => (p3 t ht).2.1 (hsub _ hc), (p3 t ht).2.2⟩⟩
+
+theorem tveLoop_TagInv (A : List Nat) (rules : List Rule) (hA : ∀ d ∈ A, 0 < d) : ∀ (fuel : Nat) (active : List Nat) (st : TState),
+    (∀ u ∈ active, u < A.length) → LInv active st.graph → TagInv A rules active st →
+      TagInv A rules [] (tveLoop A A.length fuel active st) := by
+  intro fuel
+  induction fuel with
+  | zero =>
+    intro active st _ _ hP
+    have : tveLoop A A.length 0 active st = st := rfl
+    rw [this]; exact TagInv_mono A rules active [] st (by simp) hP
+  | succ fuel ih =>
+    intro active st hact hinv hP
+    cases active with
+    | nil => exact hP
+    | cons x xs =>
+      obtain ⟨v, hvdef⟩ : ∃ v, v = bestVar A A.length (x :: xs) (st.graph.map (·.keys)) := ⟨_, rfl⟩
+      have hvmem : v ∈ x :: xs := by rw [hvdef]; exact bestVar_mem _ _ _ _ (by simp)
+      have hv : v < A.length := hact v hvmem
+      have hpos : 0 < A.getD v 0 := by
+        have : A.getD v 0 = A[v] := by simp [List.getD_eq_getElem?_getD, List.getElem?_eq_getElem hv]
+        rw [this]; exact hA _ (List.getElem_mem hv)
+      have hk : GKeys A.length st.graph := fun nd hnd u hu => hact u ((hinv nd hnd).2 u hu)
+      have hstep : tveLoop A A.length (fuel+1) (x :: xs) st
+          = tveLoop A A.length fuel ((x :: xs).filter (· != v)) (removeVar A A.length v st) := by
+        rw [hvdef]; rfl
+      rw [hstep]
+      exact ih _ _ (fun u hu => hact u (List.mem_filter.mp hu).1) (removeVar_LInv A v (x :: xs) st hinv)
+        (removeVar_TagInv A rules (x :: xs) v st hvmem hv hpos hk hP)
+
+theorem mem_graphTags_tInit (A a : List Nat) (t : Nat × Nat) : ∀ (rules : List Rule) (g : List TNode),
+    t ∈ graphTags A a (tInit A rules g) ↔ t ∈ graphTags A a g
+  | [], _ => Iff.rfl
+  | r :: rs, g => by
+    simp only [tInit]
+    rw [mem_graphTags_tInit A a t rs, mem_graphTags_addToNode]
+    simp
+
+theorem map_zero_replicate : ∀ (A : List Nat), A.map (fun _ => 0) = List.replicate A.length 0
+  | [] => rfl
+  | _ :: ds => by simp [List.replicate_succ, map_zero_replicate ds]
+
+theorem tMakeResult_act : ∀ (finals : List (Rat × List (Nat × Nat))) (acc : List Nat × Rat),
+    (finals.foldl (fun (acc : List Nat × Rat) f =>
+      (f.2.foldl (fun a t => setAt a t.1 t.2) acc.1, acc.2 + f.1)) acc).1 = applyTags (finalsTags finals) acc.1
+  | [], acc => rfl
+  | f :: fs, acc => by
+    simp only [List.foldl_cons, finalsTags, applyTags, List.foldl_append]
+    have := tMakeResult_act fs (f.2.foldl (fun a t => setAt a t.1 t.2) acc.1, acc.2 + f.1)
+    simp only [applyTags] at this
+    rw [this]
+
+/-- **`tve_action_correct`** — the joint action the table-level model assembles from the tags is in range and its TRUE
+    total payoff is exactly the reported value, for EVERY well-formed rule set. -/
+theorem tve_action_correct (A : List Nat) (rules : List Rule) (hA : ∀ d ∈ A, 0 < d)
+    (hwf : ∀ r ∈ rules, r.WF A) (hne : ∀ r ∈ rules, r.keys ≠ []) :
+    Valid A (tveRun A rules).1 ∧ payoffL rules (tveRun A rules).1 = (tveRun A rules).2 := by
+  have hinv : LInv (List.range A.length) (tInit A rules []) := by
+    intro nd hnd
+    rcases tInit_keys A rules [] nd hnd with ⟨r, hr, hk⟩ | ⟨_, h, _⟩
+    · rw [hk]; exact ⟨hne r hr, fun u hu => List.mem_range.mpr ((hwf r hr).1 u hu)⟩
+    · simp at h
+  have hsel0 : ∀ a, selTags A a ⟨tInit A rules [], []⟩ = [] := by
+    intro a
+    apply List.eq_nil_iff_forall_not_mem.mpr
+    intro t ht
+    simp only [selTags, finalsTags, List.append_nil] at ht
+    rw [mem_graphTags_tInit] at ht
+    simp [graphTags] at ht
+  have hP0 : TagInv A rules (List.range A.length) ⟨tInit A rules [], []⟩ := by
+    intro a ha
+    rw [hsel0 a]
+    refine ⟨?_, fun _ _ _ h => by simp at h, fun _ h => by simp at h⟩
+    simp only [applyTags, List.foldl_nil, stVal, finalsVal]
+    rw [tInit_represents A a ha rules [] hwf]; simp [graphVal]
+  have hPend := tveLoop_TagInv A rules hA A.length (List.range A.length) ⟨tInit A rules [], []⟩
+    (fun u hu => List.mem_range.mp hu) hinv hP0
+  obtain ⟨h1, _, _⟩ := tveLoop_spec A hA A.length (List.range A.length) ⟨tInit A rules [], []⟩
+    (by simp) (fun u hu => List.mem_range.mp hu) hinv
+  have hz : Valid A (A.map (fun _ => 0)) := valid_zeros A hA
+  have hzr : A.map (fun _ => 0) = List.replicate A.length 0 := map_zero_replicate A
+  obtain ⟨p1, p2, p3⟩ := hPend _ hz
+  have hsel : selTags A (A.map (fun _ => 0)) (tveLoop A A.length A.length (List.range A.length) ⟨tInit A rules [], []⟩)
+      = finalsTags (tveLoop A A.length A.length (List.range A.length) ⟨tInit A rules [], []⟩).finals := by
+    simp only [selTags, h1, graphTags, List.nil_append]
+  have hact : (tveRun A rules).1 = applyTags (finalsTags (tveLoop A A.length A.length (List.range A.length) ⟨tInit A rules [], []⟩).finals)
+      (A.map (fun _ => 0)) := by
+    simp only [tveRun, tMakeResult]
+    rw [tMakeResult_act, hzr]
+  have hval : (tveRun A rules).2 = finalsVal (tveLoop A A.length A.length (List.range A.length) ⟨tInit A rules [], []⟩).finals := by
+    simp only [tveRun, tMakeResult]
+    rw [tMakeResult_val]; simp
+  rw [hsel] at p1 p2 p3
+  refine ⟨?_, ?_⟩
+  · rw [hact, valid_iff_getD]
+    refine ⟨by rw [length_applyTags]; simp, ?_⟩
+    intro i hi
+    have hl : ∀ t ∈ finalsTags (tveLoop A A.length A.length (List.range A.length) ⟨tInit A rules [], []⟩).finals,
+        t.1 < (A.map (fun _ => 0)).length := fun t ht => by simp; exact (p3 t ht).1
+    by_cases hex : ∃ k, (i, k) ∈ finalsTags (tveLoop A A.length A.length (List.range A.length) ⟨tInit A rules [], []⟩).finals
+    · obtain ⟨k, hk⟩ := hex
+      rw [applyTags_tagged _ _ i k hl p2 hk]
+      exact (p3 _ hk).2.2
+    · rw [applyTags_untagged _ _ i hl (fun k hk => hex ⟨k, hk⟩)]
+      exact ((valid_iff_getD A _).mp hz).2 i hi
+  · rw [hact, p1, hval]
+    simp only [stVal, h1, graphVal]; ring
+
+/-- **table-level `ve_correct`**: the model of the code as it is returns an in-range joint action whose payoff is the
+    exhaustive maximum, and reports exactly that payoff. -/
+theorem tve_correct (A : List Nat) (rules : List Rule) (hA : ∀ d ∈ A, 0 < d)
+    (hwf : ∀ r ∈ rules, r.WF A) (hne : ∀ r ∈ rules, r.keys ≠ []) :
+    Valid A (tveRun A rules).1 ∧ payoffL rules (tveRun A rules).1 = bruteMax A rules ∧
+    (tveRun A rules).2 = bruteMax A rules := by
+  obtain ⟨h1, h2⟩ := tve_action_correct A rules hA hwf hne
+  have h3 := tve_value_correct A rules hA hwf hne
+  exact ⟨h1, by rw [h2, h3], h3⟩
+
 end AITB.VE
